@@ -4,6 +4,7 @@
 From CB Require Import ProofLib Spec MonitorSound Results.
 From CB Require Import Inv_relay_pull Inv_take_pull Inv_from_iter_pull Inv_concat_pull Inv_flatten_pull.
 From CB Require Import Flow Flow_relay Flow_drop Flow_take Flow_ends.
+From CB Require Import Chain Programs LivenessG ClosedDemand PullPrograms.
 
 (** pull regime: the monitor's VOverPull / VOverData / VUnanswered checks never fire *)
 Theorem C14_map_safe_pull (f : val -> val) p :
@@ -206,3 +207,69 @@ Theorem C14_from_iter_flow (it : nat -> option val) p :
   source_flow (from_iter_op it) p.
 Proof. exact (@from_iter_source_flow it p). Qed.
 Print Assumptions C14_from_iter_flow.
+
+(** ** C14 for PROGRAMS (PullPrograms.v): every linear pipeline from_iter -> map/filter/scan/take/skip stages
+    (any length, any closures, take counts >= 1, ANY iterator), under an external sink that sends at most
+    one Pull per message it received ([disciplined]), with every pull schedule - top-level or from inside
+    the sink's own handlers - and however the internal transfers nest ([preach]) *)
+
+(** the sink of the program never receives more Data than it sent Pulls *)
+Theorem C14_program_no_overdata (it : nat -> option val) (stages : list ustage) :
+  Forall ustage_ok stages ->
+  forall N, preach it stages N ->
+  forall n, nth_error (nodes N) (top stages) = Some n -> dout (ntrace n) <= pin (ntrace n).
+Proof. exact (@program_no_overdata it stages). Qed.
+Print Assumptions C14_program_no_overdata.
+
+(** ... and at rest, towards a live sink, every Pull has been answered by a datum, without further prompting *)
+Theorem C14_program_answers (it : nat -> option val) (stages : list ustage) :
+  Forall ustage_ok stages ->
+  forall N, preach it stages N -> pend N = PIdle -> gst N = [] ->
+  forall n, nth_error (nodes N) (top stages) = Some n -> sk (nms n) 0 = SLive ->
+    pin (ntrace n) = dout (ntrace n).
+Proof. exact (@program_answers it stages). Qed.
+Print Assumptions C14_program_answers.
+
+(** the same in the monitor's own counters (the ones OverData / Unanswered read on crate traces) *)
+Theorem C14_program_monitor (it : nat -> option val) (stages : list ustage) :
+  Forall ustage_ok stages ->
+  forall N, preach it stages N ->
+  forall n, nth_error (nodes N) (top stages) = Some n ->
+    ndata (nms n) 0 <= npull (nms n) 0 /\
+    (pend N = PIdle -> gst N = [] -> sk (nms n) 0 = SLive -> npull (nms n) 0 = ndata (nms n) 0).
+Proof.
+  exact (fun Hok N Hp n Hn =>
+    conj (@program_no_overdata_mon it stages Hok N Hp n Hn)
+         (fun Hpd Hg Hl => @program_answers_mon it stages Hok N Hp Hpd Hg n Hn Hl)).
+Qed.
+Print Assumptions C14_program_monitor.
+
+(** the premises are satisfiable: a run with a Pull sent from inside a data delivery stays inside [preach] *)
+Theorem C14_program_example :
+  preach PullProgramsSanity.pp_it PullProgramsSanity.pp_stages PullProgramsSanity.pp_N /\
+  pend PullProgramsSanity.pp_N = PIdle /\ gst PullProgramsSanity.pp_N = [] /\
+  PullProgramsSanity.top_view PullProgramsSanity.pp_N = Some (SLive, 2, 2, 2, 2, [VN 3; VN 5]).
+Proof.
+  exact (conj PullProgramsSanity.pp_preach
+          (conj (proj1 PullProgramsSanity.pp_at_rest)
+            (conj (proj1 (proj2 PullProgramsSanity.pp_at_rest))
+                  (proj1 (proj2 (proj2 PullProgramsSanity.pp_at_rest)))))).
+Qed.
+Print Assumptions C14_program_example.
+
+(** inside every pipeline under for_each (ClosedDemand.v): at every link, in every state of the run, the
+    sink side has never received more Data than it sent Pulls, and it keeps the one-Pull discipline *)
+Theorem C14_closed_no_overdata (it : nat -> option val) (stages : list ustage) :
+  Forall ustage_ok stages ->
+  forall N, crun it stages N ->
+  forall i n, i <= length stages -> nth_error (nodes N) i = Some n -> dout (ntrace n) <= pin (ntrace n).
+Proof. exact (@closed_no_overdata it stages). Qed.
+Print Assumptions C14_closed_no_overdata.
+
+Theorem C14_closed_disciplined (it : nat -> option val) (stages : list ustage) :
+  Forall ustage_ok stages ->
+  forall N, crun it stages N ->
+  forall i n, nth_error (nodes N) i = Some n ->
+    nreach1 n /\ credit (nms n) 0 + pin (ntrace n) = hout (ntrace n) + dout (ntrace n).
+Proof. exact (@closed_disciplined it stages). Qed.
+Print Assumptions C14_closed_disciplined.
